@@ -146,11 +146,15 @@ func (ke *kindEnv) base(st *pstate, a *Sym) KindSet {
 		case fn.Pkg != nil && fn.Pkg.Pkg.Path() == "reflect" && fn.Signature.Recv() != nil && namedIs(fn.Signature.Recv().Type(), "reflect", "MapIter") && (fn.Name() == "Key" || fn.Name() == "Value"):
 			return ksValid
 		case isReflectMethod(fn, "MapIndex"):
-			// m.MapIndex(k) with k one of m.MapKeys(): the entry exists
+			// m.MapIndex(k) with k one of m.MapKeys(): the entry is found — unless the key is not equal to itself
+			// (a NaN inside a float, complex, interface, array or struct key): only for key kinds without NaN
 			if len(args) == 2 && args[1].K == sLoad && args[1].A.K == sIndexAddr {
 				if fn2, _ := calleeOfSym(args[1].A.A); isReflectMethod(fn2, "MapKeys") {
 					if a2 := symArgs(st, args[1].A.A); len(a2) == 1 && a2[0].Key() == args[0].Key() {
-						return ksValid
+						kk := ke.kinds(st, &Sym{K: sTKey, A: &Sym{K: sTypeOf, A: args[0]}})
+						if kk.SubsetOf(ks(kString, kBool, kInt, kInt8, kInt16, kInt32, kInt64, kUint, kUint8, kUint16, kUint32, kUint64, kUintptr, kPtr, kChan)) {
+							return ksValid
+						}
 					}
 				}
 			}
